@@ -435,6 +435,74 @@ func ruleCtx(c *Ctx) {
 		c.check(okSel && usesCtx, "execShell:CommandContext", es.Pos(), "child processes are created with exec.CommandContext(p.ctx, ...) exactly when the context flag is set", "execShell does not select exec.CommandContext(p.ctx, ...) under the context flag: a cancelled run would keep waiting for its child")
 	}
 
+	// (4c) a child created with the context also gets a positive WaitDelay before the helper hands it out: without it
+	// Wait keeps waiting for the output pipes a grandchild still holds open after the shell itself was killed, so a
+	// cancelled run blocks until that grandchild ends
+	nCtxCmd := 0
+	for _, fn := range c.srcFuncs("interp") {
+		fn := fn
+		delayBlocks := map[*ssa.BasicBlock]token.Pos{}
+		var creates []ssa.Instruction
+		allInstrs(fn, func(in ssa.Instruction) {
+			if call, ok := in.(ssa.CallInstruction); ok {
+				if cal := call.Common().StaticCallee(); cal != nil && cal.String() == "os/exec.CommandContext" {
+					creates = append(creates, in)
+				}
+			}
+			if st, ok := in.(*ssa.Store); ok {
+				if f, x := fieldOfAddr(st.Addr); f != nil && f.Name() == "WaitDelay" && isNamed(x.Type(), "os/exec", "Cmd") {
+					if k, isC := st.Val.(*ssa.Const); isC && k.Value != nil && k.Int64() <= 0 {
+						return
+					}
+					delayBlocks[in.Block()] = in.Pos()
+				}
+			}
+		})
+		for _, cr := range creates {
+			nCtxCmd++
+			key := "cmd-ctx:WaitDelay:" + fnKey(fn)
+			// the block of the creation sets it after the call, or every way out of the function from there meets a block that does
+			sameBlock := false
+			after := false
+			for _, in := range cr.Block().Instrs {
+				if in == cr {
+					after = true
+				}
+				if st, ok := in.(*ssa.Store); ok && after {
+					if f, _ := fieldOfAddr(st.Addr); f != nil && f.Name() == "WaitDelay" {
+						sameBlock = true
+					}
+				}
+			}
+			leak := token.NoPos
+			if !sameBlock {
+				seen := map[*ssa.BasicBlock]bool{}
+				var walk func(b *ssa.BasicBlock)
+				walk = func(b *ssa.BasicBlock) {
+					if seen[b] {
+						return
+					}
+					seen[b] = true
+					if _, has := delayBlocks[b]; has && b != cr.Block() {
+						return
+					}
+					if len(b.Instrs) > 0 {
+						if r, isRet := b.Instrs[len(b.Instrs)-1].(*ssa.Return); isRet && leak == token.NoPos {
+							leak = posOr(r.Pos(), cr.Pos())
+						}
+					}
+					for _, sc := range b.Succs {
+						walk(sc)
+					}
+				}
+				walk(cr.Block())
+			}
+			c.check(sameBlock || leak == token.NoPos, key, posOr(leak, cr.Pos()), "a child created with the context gets a positive WaitDelay on every path out of "+fnKey(fn),
+				fnKey(fn)+" hands out a command created with exec.CommandContext on a path that never sets a positive WaitDelay: after cancellation kills the shell, Wait still waits for the output pipes a grandchild holds open, so system(), close() and the end of the run block until that grandchild ends instead of returning the context's error promptly")
+		}
+	}
+	c.atLeast("children created with the context", nCtxCmd, 1)
+
 	// (4b) the cancellation behaviour of a child (Cancel, WaitDelay) is configured only in the process helper
 	nCmd := 0
 	for _, fn := range c.srcFuncs("interp") {
